@@ -564,7 +564,8 @@ func (t *Tree) link(countsForRule *[TypeLast]uint, n *node, counts *[TypeLast]ui
 			emptyRule := &node{Type: TypeRule, string: name, id: t.RulesCount}
 			implicitPush := &node{Type: TypeImplicitPush}
 			emptyRule.PushBack(implicitPush)
-			implicitPush.PushBack(&node{Type: TypeNil, string: "<nil>"})
+			/* marks the stub of an undefined rule; a rule defined with an empty body holds an ordinary "<nil>" */
+			implicitPush.PushBack(&node{Type: TypeNil, string: "<undefined>"})
 			implicitPush.PushBack(emptyRule.Copy())
 			t.PushBack(emptyRule)
 			t.RulesCount++
@@ -1297,7 +1298,8 @@ func (t *Tree) Compile(file string, args []string, out io.Writer) (err error) {
 			continue
 		}
 		expression := element.Front()
-		if implicit := expression.Front(); expression.GetType() == TypeNil || implicit.GetType() == TypeNil {
+		if implicit := expression.Front(); expression.GetType() == TypeNil ||
+			(implicit.GetType() == TypeNil && implicit.String() == "<undefined>") {
 			if element.String() != "PegText" {
 				t.warn(fmt.Errorf("rule '%v' used but not defined", element))
 			}
